@@ -8,7 +8,7 @@ SPEC = {
     'closure_dirs': ['theories/C17', 'theories/Gen/Choice.v'],
     'harness': 'c17',
     'args': {
-        'quick': ['-rounds', 3],
+        'quick': ['-rounds', 4],
         'thorough': ['-rounds', 40],
     },
     'search_args': ['-rounds', 12],
